@@ -421,3 +421,57 @@ def r01g(ctx, rep, rule="R01g"):
                      detail={"expansion": repr(core)[:600]})
         else:
             rep.ok(rule, key, "%s: initialisers and body see exactly the prescribed variables" % name, [path])
+
+
+# instances for the capture rule: (name, form, variables the *user* declared in the form)
+CAPTURE_INSTANCES = [
+    ("or", "(or %U1 %U2 %U3)", ()),
+    ("and", "(and %U1 %U2 %U3)", ()),
+    ("when", "(when %U1 %U2 %U3)", ()),
+    ("unless", "(unless %U1 %U2 %U3)", ()),
+    ("begin", "(begin %U1 %U2)", ()),
+    ("cond (test) clause", "(cond (%U1) (%U2 %U3) (else %U4))", ()),
+    ("cond => clause", "(cond (%U1 => %U2) (%U3 %U4) (else %U5))", ()),
+    ("cond plain", "(cond (%U1 %U2) (else %U3))", ()),
+    ("case atom key", "(case k ((a) %U1) (else %U2))", ()),
+    ("case compound key", "(case (%U1 x) ((a) %U2) ((b) => %U3) (else %U4))", ()),
+    ("let", "(let ((x %U1)) %U2)", ("x",)),
+    ("let*", "(let* ((x %U1) (y %U2)) %U3)", ("x", "y")),
+    ("letrec", "(letrec ((f %U1)) %U2)", ("f",)),
+    ("named let", "(let loop ((i %U1)) %U2)", ("loop", "i")),
+]
+
+
+def r01h(ctx, rep, rule="R01h"):
+    rep.rule(rule, "derived forms introduce no binder around user code: in the core expansion of a schematic instance, every "
+             "user sub-expression (marker) is in the scope of the variables the user declared in that form and of nothing "
+             "else. A temporary introduced by a template (e.g. the `var1` of `or`) that encloses a user expression captures "
+             "a user variable of the same name — syntax-rules here is not hygienic, so only templates that bind no "
+             "temporary around user code are safe.")
+    try:
+        macros, forms, path = load_macros(ctx["root"])
+    except (OSError, IndexError) as e:
+        rep.anchor_lost(rule, "marwood/prelude.scm unreadable: %s" % e)
+        return
+    for name, text, declared in CAPTURE_INSTANCES:
+        core = expand(S(text), macros)
+        if "no-rule" in repr(core):
+            rep.fail(rule, "%s|%s" % (rule, name), "no prelude rule matches (a sub-form of) %s" % text, [path])
+            continue
+        sc = scopes(core)
+        intruders = {}
+        for m, vs in sc.items():
+            if not m.startswith("%U"):
+                continue
+            extra = sorted(v for v in vs if v not in declared)
+            for v in extra:
+                intruders.setdefault(v, []).append(m)
+        key = "%s|%s" % (rule, name)
+        if intruders:
+            rep.fail(rule, key, "in %s the expansion evaluates user expression(s) %s inside the scope of the introduced "
+                     "temporar%s %s: a user variable with that name is captured" % (
+                         text, ", ".join(sorted({m for ms in intruders.values() for m in ms})),
+                         "y" if len(intruders) == 1 else "ies", ", ".join(sorted(intruders))), [path],
+                     detail={"expansion": repr(core)[:500]})
+        else:
+            rep.ok(rule, key, "%s: user expressions see only the variables the user declared" % name, [path])
